@@ -462,7 +462,10 @@ def rand_tree(rng, depth, tier, p=None, coherent=None, dtype=None):
         children = [ch] * k
     else:
         children = [rand_tree(rng, rng.randint(0, depth - 1), tier, child_p(), coh, dtype) for _ in range(k)]
-    return ProdNode(rng, pp, children, power=power)
+    # array-weighted product over a mixed-dtype product component still raises AttributeError in inner
+    # (finding pspace-array-nested-mixed-dtype-inner-raises, probed separately)
+    wk = rng.choice(['none', 'const']) if dtype == 'mixed' else None
+    return ProdNode(rng, pp, children, wkind=wk, power=power)
 
 
 # --------------------------------------------------------- correspondence
@@ -815,7 +818,9 @@ def check_space(space, xd, yd, zd, a):
     if hilbert:
         attempt('sym', lambda: (_close(x.inner(y), np.conj(y.inner(x))), None))
         attempt('lin', lambda: (_close((a * x + y).inner(z), a * x.inner(z) + y.inner(z), 1e-8), None))
-        attempt('pos', lambda: (complex(x.inner(x)).imag == 0 and complex(x.inner(x)).real >= 0 and
+        # <x,x> real up to rounding of the boundary-fraction products (|Im| <= 1e-12 |Re|), >= 0, > 0 for x != 0
+        attempt('pos', lambda: (abs(complex(x.inner(x)).imag) <= 1e-12 * abs(complex(x.inner(x)).real)
+                                and complex(x.inner(x)).real >= 0 and
                                 (complex(x.inner(x)).real > 0 or x == space.zero()), x.inner(x)))
         attempt('cs', lambda: (abs(x.inner(y)) ** 2 <= (x.inner(x) * y.inner(y)).real * (1 + 1e-9) + 1e-12, None))
         attempt('norm-inner', lambda: (_close(x.norm(), np.sqrt(complex(x.inner(x)).real)), (x.norm(), x.inner(x))))
@@ -1195,6 +1200,12 @@ def probes(rng, tier):
           "import odl, numpy as np\nsp = odl.tensor_space(3, dtype='int64', weighting=np.array([1, 2, 3]), exponent=1)\n"
           "x = sp.element([2, 3, -1])\ntry:\n    observed = x.norm()\n    ok = observed == 11.0\n"
           "except Exception as e:\n    observed = repr(e); ok = False\n")
+    known('pspace-array-nested-mixed-dtype-inner-raises',
+          'inner/norm on an ARRAY-weighted exponent-2 product whose first component is a mixed-dtype product',
+          "import odl\nps = odl.ProductSpace(odl.ProductSpace(odl.rn(2, dtype='float32'), odl.rn(3)), "
+          "odl.ProductSpace(odl.rn(2), 2), weighting=[1, 2])\nx = ps.one()\ntry:\n    observed = (x.inner(x), x.norm())\n"
+          "    ok = abs(observed[0] - 13.0) < 1e-6 and abs(observed[1] ** 2 - 13.0) < 1e-5\n"
+          "except AttributeError as e:\n    observed = repr(e); ok = False\n")
     known('discr-bdry-fraction-isclose-snap',
           'boundary fraction 1.000002 (inside the np.isclose band): ||one||^2 == volume',
           "import odl, numpy as np\npart = odl.RectPartition(odl.IntervalProd(0, 4 + 0.5 + 0.5 * 1.000004), "
